@@ -247,7 +247,7 @@ def base_inputs(typename, rng, n):
     sp = [T(v) for v in flt.special_values(f, neighbours=1)]
     mid = [T(v) for v in (0.5, 1.5, -2.0, 0.3, -0.7, 1e-3, 7.0, 0.1, 100.0)]
     rnd = [T(v) for v in flt.random_bits_floats(rng, max(4, n // 3), f)]
-    pool = sp + mid + rnd
+    pool = sp + mid + rnd + [T(np.nan), T(np.nan)]  # NaN is an input like any other ("for every input")
     idx = rng.integers(0, len(pool), size=n)
     return [pool[i] for i in idx]
 
@@ -520,8 +520,9 @@ def shipped_task(task):
 # ----------------------------------------------------------------- generated programs
 
 
-EXTRA_UNARY = ["floor", "ceil", "truncate", "exp", "expm1", "exp2", "log", "log1p", "log2", "log10", "sin", "cos", "tan", "sinh", "cosh", "tanh", "asin", "acos", "atan", "asinh", "acosh", "atanh"]
-EXTRA_BINARY = ["remainder", "floor_divide", "pow", "atan2", "copysign", "hypot"]
+EXTRA_UNARY = ["floor", "ceil", "truncate", "exp", "expm1", "exp2", "log", "log1p", "log2", "log10", "sin", "cos", "tan", "sinh", "cosh", "tanh", "asin", "acos", "atan", "asinh", "acosh", "atanh", "round"]
+EXTRA_BINARY = ["remainder", "floor_divide", "pow", "atan2", "copysign", "hypot"]  # nextafter is declared by the numpy target but no Context method builds it
+EXTRA_PRED = ["is_finite"]
 
 
 def declared(target, kinds):
@@ -549,6 +550,7 @@ def gen_cases(target):
             np_consts=(target == "numpy"),
             extra_unary=eu,
             extra_binary=eb,
+            extra_pred=declared(target, EXTRA_PRED),
         ),
         st.integers(0, 2**31 - 1),
         st.dictionaries(st.integers(0, 20).map(str), st.sampled_from(["a", "b", "a", "t", "a", "fn", "result", "abs_x", "a"]), max_size=5),
@@ -620,6 +622,9 @@ def cpp_template_probe(task):
         for k in un:
             cases.append((k, T, {"syms": syms, "nodes": base + [[k, 0], ["multiply", 3, 1], ["add", 4, 2]], "root": 5}))
             cases.append((k, T, {"syms": syms, "nodes": base + [["multiply", 0, 1], ["add", 3, 2], [k, 4], ["multiply", 5, 1], ["subtract", 6, 2]], "root": 7}))
+        for k in declared("cpp", EXTRA_PRED):
+            cases.append((k, T, {"syms": syms, "nodes": base + [[k, 0], ["select", 3, 1, 2]], "root": 4}))
+            cases.append((k, T, {"syms": syms, "nodes": base + [["divide", 0, 1], [k, 3], ["logical_not", 4], ["select", 5, 1, 2]], "root": 6}))
         for k in bi:
             cases.append((k, T, {"syms": syms, "nodes": base + [[k, 0, 1], ["multiply", 3, 2], ["add", 4, 0]], "root": 5}))
             cases.append((k, T, {"syms": syms, "nodes": base + [["multiply", 0, 1], ["add", 3, 2], [k, 4, 1], ["multiply", 5, 2], ["add", 6, 0]], "root": 7}))
@@ -643,6 +648,9 @@ def py_template_probe(task):
         for k in un:
             specs.append((k, {"syms": syms, "nodes": base + [[k, 0], ["multiply", 3, 1], ["add", 4, 2]], "root": 5}))
             specs.append((k, {"syms": syms, "nodes": base + [["multiply", 0, 1], ["add", 3, 2], [k, 4], ["multiply", 5, 1], ["subtract", 6, 2]], "root": 7}))
+        for k in declared(target, EXTRA_PRED):
+            specs.append((k, {"syms": syms, "nodes": base + [[k, 0], ["select", 3, 1, 2]], "root": 4}))
+            specs.append((k, {"syms": syms, "nodes": base + [["divide", 0, 1], [k, 3], ["logical_not", 4], ["select", 5, 1, 2]], "root": 6}))
         for k in bi:
             specs.append((k, {"syms": syms, "nodes": base + [[k, 0, 1], ["multiply", 3, 2], ["add", 4, 0]], "root": 5}))
             specs.append((k, {"syms": syms, "nodes": base + [["multiply", 0, 1], ["add", 3, 2], [k, 4, 1], ["multiply", 5, 2], ["add", 6, 0]], "root": 7}))
